@@ -957,6 +957,10 @@ BRANCH_SCOPE = {
     'x25519-dalek/src/x25519.rs': _VT,
 }
 _INT_TYS = {'as', 'usize', 'u8', 'u16', 'u32', 'u64', 'u128', 'i8', 'i16', 'i32', 'i64', 'isize'}
+_DATA_DEP_ITER = {'skip_while', 'take_while', 'map_while', 'filter', 'filter_map', 'find', 'find_map', 'position', 'rposition',
+                  'any', 'all', 'contains', 'starts_with', 'ends_with', 'binary_search', 'binary_search_by', 'sort', 'sort_by',
+                  'sort_unstable', 'sort_by_key', 'dedup', 'retain', 'max', 'min', 'max_by', 'min_by', 'max_by_key', 'min_by_key',
+                  'trim_start_matches', 'trim_end_matches', 'is_sorted'}
 _ITER_METHODS = {'rev', 'iter', 'iter_mut', 'into_iter', 'zip', 'enumerate', 'len', 'step_by', 'chunks',
                  'chunks_exact', 'skip', 'take', 'by_ref'}
 
@@ -1058,6 +1062,11 @@ def branch_sites_of_fn(fs, fi):
                 elif x in UNWRAPS:
                     kk = rslex.match_delim(toks, i + 1)
                     add(i, x, clip_tail(render(toks, expr_start(toks, i - 2, a + 1), kk)))
+                elif x in _DATA_DEP_ITER:
+                    # iterator adaptors / consumers whose control flow depends on the ELEMENTS (closure predicate,
+                    # short-circuit comparison, search): as much a branch as an `if`
+                    kk = rslex.match_delim(toks, i + 1)
+                    add(i, 'iter:' + x, clip_tail(render(toks, expr_start(toks, i - 2, a + 1), kk)))
             elif x in PANIC_MACROS and is_p(nxt, '!') and toks[i + 2][0] == 'p' and toks[i + 2][1] in _OPEN:
                 add(i, x + '!', clip_head(render(toks, i, rslex.match_delim(toks, i + 2))))
         elif k0 == 'p':
